@@ -359,8 +359,8 @@ MC_JOBS = {
                  ("MC_Build", "MC_Build_gen4"), ("MC_Build", "MC_Build_gen_thorough")],
 }
 # how many exported designspaces of each configuration are replayed against the real code (quick, thorough)
-REPLAY_BUDGET = {"MC_Build": (80, 800), "MC_Build2": (50, 600), "MC_Build3": (50, 500), "MC_Build_gen": (90, 1000),
-                 "MC_Build_gen4": (80, 800), "MC_Build_thorough": (80, 800), "MC_Build2_thorough": (50, 600),
+REPLAY_BUDGET = {"MC_Build": (70, 800), "MC_Build2": (45, 600), "MC_Build3": (45, 500), "MC_Build_gen": (80, 1000),
+                 "MC_Build_gen4": (70, 800), "MC_Build_thorough": (80, 800), "MC_Build2_thorough": (50, 600),
                  "MC_Build2b_thorough": (0, 400), "MC_Build2c_thorough": (0, 500), "MC_Build3_thorough": (50, 500),
                  "MC_Build_gen_thorough": (0, 400)}
 WANT_MASK = 1 | 2 | 4 | 8 | 16 | 32 | 64
@@ -551,7 +551,8 @@ def run(chk):
         "with <= 2 extra masters on the half lattice (intermediate and corner masters); 3 axes with <= 2 extra masters on corners "
         "and axis ends; each with every combination of item values {0, 3} and sparse flags; the thorough tier adds two-sided "
         "2-axis families, 3 extra masters, the quarter lattice and bent 3-axis families.  MC_Build_gen* only export designspaces "
-        "(Normalise and its invariants) for the replay")
+        "(two-sided 2-axis half lattice; one-sided 2-axis QUARTER lattice, which gives the fractional delta weights that make "
+        "rounding matter; Normalise and its invariants only) for the replay")
     chk.assumptions += [
         "the built font is judged as saved and reloaded; tables are decoded by fontTools' table classes (their codecs are C01/C15's subject)",
         "a font is evaluated at F2Dot14 coordinates: master locations are rounded to F2Dot14 and the derived scalar perturbation "
